@@ -2,8 +2,11 @@
 labels are Python str (already stripped: well-formed tiers)."""
 import itertools
 
-LABELS = ["a", "b", "", "ab", "x y", "é", "a-b", "\U0001d11e"]
-SCALES_DYADIC = [("dyadic", 0), ("dyadic", 3), ("dyadic", 10)]
+LABELS = ["a", "b", "", "ab", "x y", "é", "a-b", "\U0001d11e", "\ufeffa", "b\u200b", "e\u0301", "9%", "%s"]
+# ticks of 1, 1/8, 1/1024 s -- and, less often, of 1024 s, 131072 s and 2^-24 s: the same order types at magnitudes
+# of hours, days and fractions of a microsecond (all exact in binary64)
+SCALES_DYADIC = [("dyadic", 0), ("dyadic", 3), ("dyadic", 10), ("dyadic", 0), ("dyadic", 3), ("dyadic", 10),
+                 ("dyadic", -10), ("dyadic", -17), ("dyadic", 24)]
 SCALES_DECIMAL = [("decimal", 1), ("decimal", 3), ("decimal", 2)]
 
 
@@ -48,9 +51,14 @@ def small_itiers(G=8, maxn=3, rng=None, span_extra=False):
     return tiers
 
 
-def random_itier(rng, maxn=10, tmax=60, labels=LABELS, name="tier", tight=None):
+def random_itier(rng, maxn=10, tmax=60, labels=LABELS, name="tier", tight=None, long_p=0.0):
     """Random wf interval tier: sorted, disjoint (touching with prob.), inside span."""
-    if tmax >= 30 and rng.random() < 0.04:
+    u = rng.random() if long_p else 1.0
+    if u < long_p:
+        # rarely a tier with far more entries than any short-cut for "small" tiers would expect (> 64, > 128)
+        n = rng.randint(66, 140)
+        tmax = max(tmax, 3 * n)
+    elif tmax >= 30 and rng.random() < 0.04:
         maxn = max(maxn, 12)         # now and then a tier long enough for two-digit indices
         n = rng.randint(10, maxn)
     else:
@@ -74,8 +82,12 @@ def random_itier(rng, maxn=10, tmax=60, labels=LABELS, name="tier", tight=None):
     return {"kind": "I", "name": name, "entries": ents, "min": lo, "max": hi}
 
 
-def random_ptier(rng, maxn=10, tmax=60, labels=LABELS, name="pts", distinct=True):
-    if tmax >= 30 and rng.random() < 0.04:
+def random_ptier(rng, maxn=10, tmax=60, labels=LABELS, name="pts", distinct=True, long_p=0.0):
+    u = rng.random() if long_p else 1.0
+    if u < long_p:
+        n = rng.randint(66, 140)
+        tmax = max(tmax, 2 * n)
+    elif tmax >= 30 and rng.random() < 0.04:
         maxn = max(maxn, 12)
         n = rng.randint(10, maxn)
     else:
